@@ -424,7 +424,17 @@ class Normalizer:
         return (op, sort_terms(flat))
 
     def n_Subscript(self, node):
-        return ("sub", self.n(node.value), self.n(node.slice))
+        v, i = self.n(node.value), self.n(node.slice)
+        # constant index into a literal display: the element itself
+        if v[0] in ("list", "tuple") and i[0] == "c" and isinstance(i[1], int) and not isinstance(i[1], bool):
+            if -len(v) + 1 <= i[1] < len(v) - 1:
+                return v[1 + i[1]] if i[1] >= 0 else v[i[1]]
+        if v[0] == "call" and v[1] == "numpy.array" and len(v[2]) == 1 and v[2][0][0] in ("list", "tuple") and \
+                i[0] == "c" and isinstance(i[1], int) and not isinstance(i[1], bool) and 0 <= i[1] < len(v[2][0]) - 1:
+            el = v[2][0][1 + i[1]]
+            if el[0] not in ("list", "tuple"):
+                return el
+        return ("sub", v, i)
 
     def n_Slice(self, node):
         return ("slice", self.n(node.lower) if node.lower else ("c", None),
